@@ -4,6 +4,14 @@
 #include <symengine/utilities/teuchos/Teuchos_RCP.hpp>
 #endif
 
+#if defined(SYMENGINE_VERIF_SIM)
+// Default (empty) verification hook; the simulator's harness links a strong
+// definition that overrides it.
+extern "C" __attribute__((weak)) void symengine_verif_sim_point(int, const void *)
+{
+}
+#endif
+
 namespace SymEngine
 {
 
